@@ -44,6 +44,56 @@ CLAIMED = {
         text="TLC checks OnlyAuthentic, RejectKeepsState, Monotone, CacheIsLastAccepted over 2 pools x 3 counters x 8 validity triples and all 3-call histories, and emits 13k behaviours (incl. seeded 24-call chains) with the expected verdict and abstract state after every call; the driver replays them with real ed25519 cold keys, op-cert signatures and depth-6 KES.",
         note="symbolic crypto in the model; counters mapped order-isomorphically onto 0..2^64-1.",
         design_ref="§5 C46", engine="dmq"),
+    "C06": dict(
+        technique="TLA+ model of multi-asset values as partial maps (MultiAsset.tla), TLC proves the group laws / canonical encoding on the model and enumerates pairs and triples; replay on MultiAsset[*big.Int] at homomorphic scales up to 2^64+1",
+        text="Eq/Add/Norm/Enc are TLA+ definitions; TLC checks equivalence, commutativity, associativity, Dec(Enc(a)) = Norm(a) and injectivity of Enc on Norm-classes exhaustively over a small key/quantity domain and emits every pair (sampled triples); each case is replayed on the real type (Add, Compare, Asset, CBOR encode/decode, byte-exact against the spec's canonical encoding) at scales 1, 2^31, 2^62, 2^63, 2^64+1.",
+        note="small key universe (2 policies x 2 names) and quantities -2..2 in TLC; addition-preserving scaling makes the spec result exact at large magnitudes; the int64/uint64 instantiations and the nil zero value are outside the property's domain (evidence only).",
+        design_ref="§5 C06", engine="ledger-decision"),
+    "C10": dict(
+        technique="TLA+ observer specification of the protocol engine (EngineObs.tla): traces recorded at the engine's linearization points on both endpoints validated line by line by TLC (EngineTrace.tla); TLC-generated conversation plans (EnginePlans.tla)",
+        text="Both endpoints of real conversations (real Protocol instances, real muxers, fragmenting pipe) are traced with one recorder; TLC checks on every trace that the messages admitted by the receiver are exactly the messages dequeued by the sender (64-bit content hash, length, order), that segment lengths read equal segment lengths written, and the split/reassembly arithmetic (payload buffer, 65535 split, leftover data).",
+        note="test protocol vproto over the public protocol.New API; message sizes 1..200000 bytes around the 65535 boundary; content compared by FNV-64 hash; schedules: seeded perturbation in the hooks + fragmented reads.",
+        design_ref="§5 C10, Appendix A", engine="engine"),
+    "C11": dict(
+        technique="TLA+ reference semantics of an endpoint under adversarial scripts (EnginePlans.tla) + observer specification (EngineObs.tla); TLC enumerates every script up to a bound with the predicted outcome, replayed by a raw segment-level peer on the real engine; traces validated by TLC",
+        text="Every sequence of <= 3 (thorough: 4) raw messages over {Req, Resp, Data, Chunk, Done, unknown type, malformed CBOR} is written by a raw peer to a real server and a real client endpoint; the specification predicts error/no error and how many messages reach the application; the recorded trace must satisfy: receive transition only with peer agency and a permitted message, handler only after it, nothing handled after a receive-side error, error => stop => all loops exit.",
+        note="a decode-level error raised by the read loop may overtake queued permitted messages (documented race, the specification gives a range); vproto state map.",
+        design_ref="§5 C11, Appendix A", engine="engine"),
+    "C12": dict(
+        technique="TLA+ observer specification (EngineObs.tla) validated on traces of TLC-generated conforming conversations with and without client pipelining (EnginePlans.tla)",
+        text="TLC checks on every trace: dequeue order is enqueue order per sender and exactly once, send transitions follow dequeue order each exactly once (queued transitions of pipelined batches included), nothing is written before the first message's transition or after a refused one, batch size <= 20, and conforming (pipelined) conversations complete cleanly on both sides.",
+        note="vproto; conversations of <= 2 (thorough 3) operations x sizes x pipelining; schedules by seeded perturbation.",
+        design_ref="§5 C12, Appendix A", engine="engine"),
+    "C13": dict(
+        technique="TLA+ observer specification (EngineObs.tla): admission events logged under the pending-bytes mutex validated by TLC; TLC-generated back-pressure scenarios (fill / at limit / over limit, slow consumer)",
+        text="For limits 200/4000/70000 bytes and a slow consumer, every admission event must show len <= limit, pending <= limit, the limit of the state that was read, and exact pending-byte accounting against releases; a message one byte over the limit must end the protocol with an error; conversations at and below the limit must complete (no deadlock).",
+        note="the 16 MiB read-buffer clause is not exercised in the quick tier; limits are applied by the engine to the sender's queue too, so each endpoint is given only its receive-side limit.",
+        design_ref="§5 C13, Appendix A", engine="engine"),
+    "C14": dict(
+        technique="TLA+ observer specification (EngineObs.tla) with timer events stamped by the stateLoop's clock; TLC-generated stall scenarios",
+        text="TimerArm only for the current non-initial state with that state's timeout; Timeout only when armed, for the current state and not before the timeout elapsed; every state change disarms; a stall of 2.6x the timeout in a timed state must end with a timeout error and stop, a stall in the initial state must not.",
+        note="timeouts scaled to 150 ms; only lower bounds on elapsed time are asserted (no upper bounds, which would be load dependent).",
+        design_ref="§5 C14, Appendix A", engine="engine"),
+    "C27": dict(
+        technique="TLA+ reference model of the ledger's consumed/produced balance (ValueConservation.tla), TLC invariants + seeded enumeration over certificate multisets; replay on each era's UtxoValidateValueNotConservedUtxo",
+        text="Consumed and produced are TLA+ definitions written from the ledger specification (inputs, withdrawals, refunds, mint; outputs, fee, stake/pool/DRep deposits, proposals, donation), coin and per asset; TLC emits balanced / off-by-one cases for every certificate multiset; each is built as a concrete era transaction + mock ledger state and replayed at three scales and after a CBOR round trip.",
+        note="legacy deregistration refund = current keyDeposit (mock ledger state has no per-credential deposits); sampled grid seeded by VERIF_SEED; known finding F-C27-b (all-zero policy id treated as ada).",
+        design_ref="§5 C27", engine="ledger-decision"),
+    "C32": dict(
+        technique="TLA+ decision structure of the collateral rules (Collateral.tla), TLC grid around the exact threshold, replay on CBOR-decoded Alonzo..Dijkstra transactions through each era's rule functions and rule list",
+        text="Enough <=> balance*100 >= fee*pct (balance = inputs - return), ada-only unless returned, >= 1 input when scripts run, count <= max; TLC enumerates fees, percentages and balances around the threshold (including products not divisible by 100) and the driver replays them at three scales on the four eras.",
+        note="grid fee 0..7 x pct {0,1,50,99,100,150}; over-rejections by side conditions the property does not name are observations only.",
+        design_ref="§5 C32", engine="ledger-decision"),
+    "C33": dict(
+        technique="TLA+ decision table of the withdrawal gate (Withdrawals.tla), TLC enumeration PV 0..20 x amount x ledger capability x validity x parameter type, replay on conway.UtxoValidateWithdrawals, the Conway/Dijkstra rule lists and VerifyTransaction",
+        text="The gate (NotDelegated / StateUnavailable / ok) is a TLA+ function of protocol major version, amount, delegation state, phase-2 validity and parameter type; every case is replayed on signed balanced Conway and Dijkstra transactions.",
+        note="zero-amount withdrawals of undelegated accounts: either outcome accepted (property silent).",
+        design_ref="§5 C33", engine="ledger-decision"),
+    "C41": dict(
+        technique="TLA+ transcription of chain comparison (Selection.tla), TLC proves antisymmetry, transitivity, shallow/deep rules and order independence of Preferred on the model; all pairs and permutation cases replayed on the real selector in several concrete worlds",
+        text="Compare / IsDeepFork / CompareWithDensity / Preferred written from the property and the consensus design; TLC checks the order laws over all pairs and triples of a small tip universe and emits them; the driver replays every pair in small, top-of-uint64 and mainnet-like worlds and calls Preferred in all candidate orders.",
+        note="homogeneous tip sets (all windowed or all simple); small universe in TLC.",
+        design_ref="§5 C41", engine="consensus"),
     "C42": dict(
         technique="TLA+ spec of the pipeline goroutines (Pipeline.tla), TLC safety+liveness, TLC-simulated schedules forced on the real pipeline through blocking gates",
         text="Pipeline.tla models Submit, stage workers, the apply runner, Stop and WaitForDrain at the grain of the verif gates; "
